@@ -13,6 +13,8 @@ package peers
 //@ memo PeerSet.superMajority smMemo
 //@ memo PeerSet.trustCount tcMemo
 //@ memo PeerSet.hash hashMemo
+//@ ghost func (ps *PeerSet) hexMemo() bool { return ps.hex == "" || ps.hex == common.Enc(PSHashOf(ps.Peers)) }
+//@ memo PeerSet.hex hexMemo
 //@ memo Peer.id idMemo
 
 //@ func (peerSet *PeerSet) Len() int
@@ -124,3 +126,8 @@ package peers
 //@   ensures[subset]  len(ret0.Peers) <= len(peerSet.Peers)
 //@   ensures[kept]    __eq(peerSet.Peers, old(peerSet.Peers))
 //@   loop 1 invariant[filter] len(peers) <= __idx() && !(peers == nil) && (forall i int :: 0 <= i && i < len(peers) ==> peers[i] != nil && peers[i].PubKeyHex != peer.PubKeyHex)
+
+//@ func (peerSet *PeerSet) Hex() string
+//@   requires peerSet != nil
+//@   modifies nothing
+//@   ensures[def] ret0 == common.Enc(PSHashOf(peerSet.Peers))
